@@ -2,7 +2,7 @@
    `clamp` selects the variant of the shortening rule: false = code as found in the pinned tree,
    true = repaired code (fixes/C37-clamp-shortened-length.patch); theorems quantified over clamp hold for both. *)
 From Coq Require Import List NArith Arith Bool.
-From Verif.C37 Require Import Model Spec Proofs Families Global.
+From Verif.C37 Require Import Model Spec Proofs Families More Global.
 Import ListNotations.
 
 (* every name GetLengthLimitedID returns is at most maxLength bytes long (both variants of the rule) *)
@@ -51,12 +51,24 @@ Theorem c37_total_repaired : forall H p s max, (forall x, length (H x) = hash_le
 Proof. exact gllid_total_clamped. Qed.
 Print Assumptions c37_total_repaired.
 
-(* code as found: a name is returned only while the room does not exceed the digest text (partial: see the refutation below) *)
-Theorem c37_total_as_found_partial : forall H p s max, (forall x, length (H x) = hash_len) -> length p + 2 <= max -> max <= length p + 1 + hash_len -> exists n, gllid false H p s max = Some n.
-Proof. exact gllid_total_unclamped. Qed.
-Print Assumptions c37_total_as_found_partial.
+(* exactly when GetLengthLimitedID panics instead of returning a name, for both variants of the rule:
+   the ID must be shortened and there is either no room for a digest character or (code before the fix)
+   more room than the 43 characters of the digest text *)
+Theorem c37_panics_iff : forall clamp H p s max,
+  (forall x, length (H x) = hash_len) ->
+  (gllid clamp H p s max = None <->
+   shortened clamp p s max /\ (left_chars clamp p max = 0 \/ hash_len < left_chars clamp p max)).
+Proof. exact gllid_none_iff. Qed.
+Print Assumptions c37_panics_iff.
 
-(* REFUTED for the code as found: a validated policy ID (name of 245 bytes) has no nftables chain name (panic) *)
+(* the code as it is now in the tree (repaired rule): the only panic left is maxLength <= len(prefix)+1 *)
+Theorem c37_panics_iff_repaired : forall H p s max,
+  (forall x, length (H x) = hash_len) ->
+  (gllid true H p s max = None <-> shortened true p s max /\ max <= length p + 1).
+Proof. exact gllid_none_iff_clamped. Qed.
+Print Assumptions c37_panics_iff_repaired.
+
+(* REFUTED for the code before fix 0de539f (clamp = false): a validated policy ID (name of 245 bytes) has no nftables chain name (panic) *)
 Theorem c37_as_found_always_names_refuted : exists H id, (forall x, length (H x) = hash_len) /\ valid_pid id = true /\ length (p_name id) <= 253 /\
                policy_chain false H true true id = None.
 Proof. exact unclamped_panics. Qed.
@@ -192,27 +204,116 @@ Theorem c37_group_content_injective : forall i s t ps qs,
 Proof. exact group_content_injective. Qed.
 Print Assumptions c37_group_content_injective.
 
-(* MAIN: over every kind of identity at once.  If the specification demands different names for a and b
-   (same kernel namespace, both in the domain, a <> b) and the model gives them one name, then two different
-   texts have equal digests on at least their first 11 characters (66 bits). *)
-Theorem c37_distinct_identities_distinct_names : forall clamp H256 H224 H3,
-  (forall x, length (H224 x) = 38) -> forall a b n,
+(* MAIN: over every kind of identity at once (chains, IP sets, nftables sets, NFLOG prefixes, veth names, VM
+   handle IDs).  If the specification demands different names for a and b (same namespace, both in the domain,
+   a <> b) and the model gives them one name, then two different texts have equal digests on at least their
+   first 11 characters. *)
+Theorem c37_distinct_identities_distinct_names : forall clamp H256 H224 H3 H1,
+  (forall x, length (H224 x) = 38) -> (forall x, has colon (H224 x) = false) -> forall a b n,
   must_differ a b = true ->
-  model_name clamp H256 H224 H3 a = Some n -> model_name clamp H256 H224 H3 b = Some n ->
-  strong_collision H256 H224 H3.
+  model_name clamp H256 H224 H3 H1 a = Some n -> model_name clamp H256 H224 H3 H1 b = Some n ->
+  strong_collision H256 H224 H3 H1.
 Proof. exact apart_mod_hash. Qed.
 Print Assumptions c37_distinct_identities_distinct_names.
 
-(* every name the model returns respects the kernel limit of its kind of object *)
-Theorem c37_model_fits : forall clamp H256 H224 H3 i n m,
-  model_name clamp H256 H224 H3 i = Some n -> limit i = Some m -> length n <= m.
+(* every name the model returns respects the limit of its kind of object *)
+Theorem c37_model_fits : forall clamp H256 H224 H3 H1 i n m,
+  model_name clamp H256 H224 H3 H1 i = Some n -> limit i = Some m -> length n <= m.
 Proof. exact model_fits. Qed.
 Print Assumptions c37_model_fits.
 
 (* the specification oracle accepts the model's output on every list of identities, absent digest collisions *)
-Theorem c37_model_meets_spec : forall clamp H256 H224 H3,
-  (forall x, length (H224 x) = 38) -> ~ strong_collision H256 H224 H3 -> forall l,
-  (forall i, In i l -> model_name clamp H256 H224 H3 i <> None) ->
-  ok_case_obs (map (model_obs clamp H256 H224 H3) l) = true.
+Theorem c37_model_meets_spec : forall clamp H256 H224 H3 H1,
+  (forall x, length (H224 x) = 38) -> (forall x, has colon (H224 x) = false) ->
+  ~ strong_collision H256 H224 H3 H1 -> forall l,
+  (forall i, In i l -> model_name clamp H256 H224 H3 H1 i <> None) ->
+  ok_case_obs (map (model_obs clamp H256 H224 H3 H1) l) = true.
 Proof. exact oracle_accepts_model. Qed.
 Print Assumptions c37_model_meets_spec.
+
+(* ---------- nftables set names: LegalizeSetName(NameForMainIPSet(id)) ---------- *)
+Theorem c37_nft_set_fits : forall v6 id, length (nft_set_name v6 id) <= 31.
+Proof. exact nft_set_fits. Qed.
+Print Assumptions c37_nft_set_fits.
+
+(* equal nft set names => same IP version and IDs equal after ':' -> '-', or both IDs >= 25 bytes agreeing on 25 *)
+Theorem c37_nft_set_injective : forall v6 v6' a b,
+  nft_set_name v6 a = nft_set_name v6' b ->
+  v6 = v6' /\ (legalize a = legalize b \/
+               (25 <= length a /\ 25 <= length b /\ firstn 25 (legalize a) = firstn 25 (legalize b))).
+Proof. exact nft_set_injective. Qed.
+Print Assumptions c37_nft_set_injective.
+
+Theorem c37_nft_set_hashed_injective : forall H224 v6 v6' t t' c c',
+  (forall x, has colon (H224 x) = false) ->
+  has colon t = false -> has colon t' = false -> has dash t = false -> has dash t' = false ->
+  length t <= 9 -> length t' <= 9 ->
+  nft_set_name v6 (make_unique_id H224 t c) = nft_set_name v6' (make_unique_id H224 t' c') ->
+  v6 = v6' /\ t = t' /\ (c = c' \/ trunc_collision H224 (24 - length t)).
+Proof. exact nft_set_hashed_injective. Qed.
+Print Assumptions c37_nft_set_hashed_injective.
+
+(* REFUTED outside the domain: the ':' -> '-' replacement merges the fixed IDs "a:b" and "a-b" *)
+Theorem c37_nft_set_colon_dash_refuted :
+  exists a b, a <> b /\ length a <= 24 /\ length b <= 24 /\ nft_set_name false a = nft_set_name false b.
+Proof. exact nft_set_colon_dash_clash. Qed.
+Print Assumptions c37_nft_set_colon_dash_refuted.
+
+(* ---------- NFLOG prefixes: rules.maybeHash / CalculateNFLOGPrefixStr ---------- *)
+Theorem c37_nflog_fits : forall clamp H p n, maybe_hash clamp H p = Some n -> length n <= 63.
+Proof. exact nflog_fits. Qed.
+Print Assumptions c37_nflog_fits.
+
+(* equal prefixes => same text, or both hashed (>= 63 bytes) with equal 41-character digests of different texts;
+   in particular a hashed prefix (always 63 bytes) cannot be spoofed by an unhashed one (<= 62 bytes) *)
+Theorem c37_nflog_injective : forall clamp H a b n,
+  maybe_hash clamp H a = Some n -> maybe_hash clamp H b = Some n ->
+  a = b \/ (63 <= length a /\ 63 <= length b /\ a <> b /\ firstn 41 (H a) = firstn 41 (H b)).
+Proof. exact nflog_injective. Qed.
+Print Assumptions c37_nflog_injective.
+
+Theorem c37_nflog_rule_text_injective : forall a o d i x a' o' d' i' x',
+  (i < 18446744073709551616)%N -> (i' < 18446744073709551616)%N ->
+  valid_pid x = true -> valid_pid x' = true ->
+  nflog_rule_text a o d i x = nflog_rule_text a' o' d' i' x' ->
+  a = a' /\ o = o' /\ d = d' /\ i = i' /\ x = x'.
+Proof. exact nflog_rule_text_injective. Qed.
+Print Assumptions c37_nflog_rule_text_injective.
+
+(* ---------- host-side veth names: VethNameForWorkload ---------- *)
+Theorem c37_veth_fits : forall H1 ns pod, length (veth_name H1 ns pod) <= 15.
+Proof. exact veth_fits. Qed.
+Print Assumptions c37_veth_fits.
+
+Theorem c37_veth_injective : forall H1 ns pod ns' pod',
+  has dot ns = false -> has dot ns' = false ->
+  veth_name H1 ns pod = veth_name H1 ns' pod' ->
+  (ns = ns' /\ pod = pod') \/ trunc_collision H1 11.
+Proof. exact veth_injective. Qed.
+Print Assumptions c37_veth_injective.
+
+(* ---------- VM IPAM handle IDs: vmipam.CreateVMHandleID ---------- *)
+Theorem c37_vm_handle_fits : forall clamp H net ns vm n, vm_handle_id clamp H net ns vm = Some n -> length n <= 128.
+Proof. exact vm_handle_fits. Qed.
+Print Assumptions c37_vm_handle_fits.
+
+Theorem c37_vm_handle_total : forall H net ns vm,
+  (forall x, length (H x) = hash_len) -> length net <= 120 -> exists n, vm_handle_id true H net ns vm = Some n.
+Proof. exact vm_handle_total. Qed.
+Print Assumptions c37_vm_handle_total.
+
+Theorem c37_vm_handle_injective : forall clamp H net ns vm net' ns' vm' n,
+  net <> [] -> net' <> [] -> has dot net = false -> has dot net' = false ->
+  length net <= 60 -> length net' <= 60 -> has dot ns = false -> has dot ns' = false ->
+  vm_handle_id clamp H net ns vm = Some n -> vm_handle_id clamp H net' ns' vm' = Some n ->
+  (net = net' /\ ns = ns' /\ vm = vm') \/ exists k, 11 <= k /\ trunc_collision H k.
+Proof. exact vm_handle_injective. Qed.
+Print Assumptions c37_vm_handle_injective.
+
+(* REFUTED outside the domain: a CNI network name containing a dot ("a.vmi") is ambiguous with namespace "vmi" *)
+Theorem c37_vm_handle_dotted_network_refuted : forall clamp H,
+  exists net ns vm net' ns' vm', (net, ns, vm) <> (net', ns', vm') /\ net <> [] /\ net' <> [] /\
+    has dot ns = false /\ has dot ns' = false /\
+    vm_handle_id clamp H net ns vm = vm_handle_id clamp H net' ns' vm' /\ vm_handle_id clamp H net ns vm <> None.
+Proof. exact vm_handle_dotted_network_clash. Qed.
+Print Assumptions c37_vm_handle_dotted_network_refuted.
